@@ -24,7 +24,8 @@ Local Open Scope N_scope.
 
 Inductive ty :=
 | TStr | TGeneric | TJson | TJsonl
-| TOther (id : N).   (* yaml, paths, path, xml: run by the correspondence only *)
+| TYaml | TPaths
+| TOther (id : N).   (* path (file-system dependent: os.Stat, path.Clean) and xml: correspondence only *)
 
 (* ---- line writers ---- *)
 Fixpoint write_lines (xs : list bytes) : bytes :=
@@ -104,21 +105,68 @@ Section Json.
 End Json.
 
 (* ---- the tabwriter of the generic writer ---- *)
-(* text/tabwriter (flags 0) passes text through unchanged unless it contains a
-   cell or line control: \t \v (cell ends, replaced by padding), \f (flush),
-   0xff (escape bracket).  Elements containing one of them are outside the model. *)
-Definition tab_special (c : N) : bool := (c =? 9) || (c =? 11) || (c =? 12) || (c =? 255).
+(* text/tabwriter (flags 0, padding 2) passes text through unchanged except for
+   its controls: \t and \v end a cell (the byte is replaced by padding: outside
+   the model), \f ends the line like \n (written as \n), and 0xff opens an
+   escaped segment in which nothing is interpreted (bytes unchanged; never closed
+   by the writer, so it lasts to the end of the stream). *)
+Definition tab_special (c : N) : bool := (c =? 9) || (c =? 11).
 Definition tab_free (x : bytes) : bool := negb (existsb tab_special x).
+Definition has_byte (c : N) (x : bytes) : bool := existsb (N.eqb c) x.
+Definition ff_to_nl (x : bytes) : bytes := map (fun c => if c =? 12 then 10 else c) x.
+
+(* Some bytes, or None where the model does not follow the tabwriter *)
+Definition write_generic (xs : list bytes) : option bytes :=
+  if negb (forallb tab_free xs) then None
+  else if existsb (has_byte 255) xs && existsb (has_byte 12) xs then None
+  else if existsb (has_byte 255) xs then Some (write_lines xs)
+  else Some (write_lines (map ff_to_nl xs)).
+
+(* ---- paths (PATH-like lists): builtins/types/paths ---- *)
+(* writer: strings.Join(elements, ":") on Close; reader: bytes.Split(all, ":") *)
+Fixpoint join_colon (xs : list bytes) : bytes :=
+  match xs with
+  | [] => []
+  | [x] => x
+  | x :: r => x ++ 58 :: join_colon r
+  end.
+Fixpoint split_colon (b : bytes) : list bytes :=
+  match b with
+  | [] => [[]]
+  | c :: b' =>
+    if c =? 58 then [] :: split_colon b'
+    else match split_colon b' with
+         | l :: ls => (c :: l) :: ls
+         | [] => [[c]]
+         end
+  end.
+
+(* ---- yaml (after the fix: every element is written as `- ` + the YAML
+   encoder's string scalar) ---- *)
+Section Yaml.
+  Variable yscalar : bytes -> bytes.                 (* yaml.Marshal(string), ends with \n *)
+  Variable ydec : bytes -> option (list bytes).      (* yaml.Unmarshal into any -> []any of strings *)
+  Fixpoint write_yaml (xs : list bytes) : bytes :=
+    match xs with [] => [] | x :: r => 45 :: 32 :: yscalar x ++ write_yaml r end.
+  Definition read_yaml (b : bytes) : list bytes * bool :=
+    match crlf_trim b with
+    | [] => ([], false)
+    | _ => match ydec b with Some xs => (xs, false) | None => ([], true) end
+    end.
+End Yaml.
 
 (* ---- write then read, per type: Some (callback sequence, writer error, reader error) ---- *)
 Definition roundtrip (t : ty) (xs : list bytes) : option (list bytes * bool * bool) :=
   match t with
   | TStr | TJsonl => let '(d, e) := read_str (write_lines xs) in Some (d, false, e)
   | TGeneric =>
-    if forallb tab_free xs
-    then let '(d, e) := read_generic (write_lines xs) in Some (d, false, e)
-    else None
+    match write_generic xs with
+    | Some b => let '(d, e) := read_generic b in Some (d, false, e)
+    | None => None
+    end
   | TJson => Some (map sanitize xs, match xs with [] => true | _ => false end, false)
+  | TYaml => Some (xs, false, false)
+  | TPaths => Some (split_colon (join_colon xs), false, false)
   | TOther _ => None
   end.
 
